@@ -28,8 +28,10 @@ def combos():
     out = []
     cms_variants = [
         {"cms_type": "linear", "width": 3, "depth": 3},  # 36 counter bytes: bookkeeping words unaligned
-        {"cms_type": "log8", "width": 3, "depth": 2, "max_count": 1000, "num_reserved": 3},
+        {"cms_type": "log8", "width": 3, "depth": 2, "max_count": 100000, "num_reserved": 3},
         {"cms_type": "log16", "width": 3, "depth": 3},
+        {"cms_type": "log8", "width": 5, "depth": 2, "max_count": 10**6, "num_reserved": 100},  # more reserved counters than the default
+        {"cms_type": "log16", "width": 4, "depth": 1, "max_count": 10**7, "num_reserved": 2000},
     ]
     hh = {"width": 3, "depth": 2, "max_key_len": 3}  # 18 key bytes: counts and lengths unaligned
     hll = {"p": 7, "seed": 2**63 + 11}
@@ -39,6 +41,20 @@ def combos():
                 if cms is None and h is None and l is None:
                     continue
                 out.append({"cms_args": cms, "hh_args": h, "hll_args": l})
+    return out
+
+
+PRIOR_ITEMS = [{"keys": [b"pr1", b"pr2", b"pr1"], "mult": None, "ngram": None, "ret": 2, "mode": "ok", "idx": 0},
+               {"keys": [b"pr3", b"pr1"], "mult": [5, 9], "ngram": None, "ret": 1, "mode": "ok", "idx": 1}]
+
+
+def _snap(sk):
+    """copies of every public array of a sketch"""
+    out = []
+    for name in ("cms", "registers", "lhh", "lhh_count", "key_lens", "n_added_records"):
+        a = getattr(sk, name, None)
+        if a is not None:
+            out.append(np.array(a, copy=True))
     return out
 
 
@@ -86,13 +102,24 @@ def run_case(case, expect_fault=False):
     combo = case["combo"]
     sched = {int(k): v for k, v in case["schedule"].items()}
     kw = {k: v for k, v in combo.items() if v is not None}
-    arg_items = {"list": list(items), "tuple": tuple(items), "generator": (x for x in items)}[case.get("items_as", "list")]
+    real_items = [cbmod.realize(it) for it in items]
+    arg_items = {"list": list(real_items), "tuple": tuple(real_items), "generator": (x for x in real_items)}[case.get("items_as", "list")]
     cb = cbmod.process_item_kw if case.get("cb") == "kw" else cbmod.process_item
     extra = {"bonus": 2} if case.get("cb") == "kw" else {}
     obs = {"raised": None, "hang": False}
     res = None
     coop = case.get("ctx") == "coop"
     cores = case.get("cores", [None, 1, 2, 64][(n_workers + len(items)) % 4])
+    # "prior": an earlier parallel_add call of the same process whose result the caller still holds (same arguments,
+    # another stream); the call under test must neither see its data nor disturb it
+    prior = prior_snap = None
+    if case.get("prior"):
+        with fakectx.Patched({0: list(range(len(PRIOR_ITEMS)))}, 1, cores):
+            try:
+                prior = helpers.parallel_add(list(PRIOR_ITEMS), cbmod.process_item, n_workers=1, **kw)
+            except Exception as e:  # noqa
+                raise Violation(f"parallel_add raised {type(e).__name__}: {e} (n_workers=1, {len(PRIOR_ITEMS)} items)", "parallel-add-raised")
+        prior_snap = [_snap(x) for x in (prior if isinstance(prior, tuple) else [prior])]
     patched = coopctx.Patched(case["sched_seed"], case.get("policy", "random"), n_workers, cores) if coop else fakectx.Patched(sched, n_workers, cores)
     with patched as ctx:
         try:
@@ -132,9 +159,14 @@ def run_case(case, expect_fault=False):
         if obs["raised"] is not None:
             raise Violation(f"parallel_add raised {obs['raised']} (n_workers={n_workers}, items as {case.get('items_as', 'list')})", "parallel-add-raised")
         check_result(case, res, obs)
+        if prior is not None:
+            now = [_snap(x) for x in (prior if isinstance(prior, tuple) else [prior])]
+            for a, b, x in zip(prior_snap, now, prior if isinstance(prior, tuple) else [prior]):
+                if any(not np.array_equal(u, v) for u, v in zip(a, b)):
+                    raise Violation(f"the {type(x).__name__} returned by an earlier parallel_add call changed while a later call ran", "earlier-result-disturbed")
         return obs
     finally:
-        res = None
+        res = prior = None
         gc.collect()
         leaked = fakectx.leaked_segments()
         obs["leaked_segments"] = len(leaked)
